@@ -308,7 +308,9 @@ class Run:
                     self.violations.append((f'engine {espec["engine"]}: implementation and model differ', rp, True))
             extra = self.prop.get('extra')
             if extra:
-                extra(self)
+                t = extra(self)
+                if t:
+                    totals.append(t)
             self.known_findings()
         if ob['broken']:
             found = any(v[2] for v in self.violations)
